@@ -263,10 +263,34 @@ def mutate_doc(rng, tree, vocab):
         if not frs:
             return None, name
         return apply(A.DocumentNode, 0, lambda h: _with(h, definitions=tuple(h.definitions) + (frs[0],))), name
+    if name == 'ill_conditioned_fragment_with_variable':
+        # a fragment whose type condition does not name an output type (unknown / input / enum), which uses a variable whose
+        # declared type does not fit the position, defined BEFORE the operation that spreads it: what a rule concludes about
+        # the fragment's variable usages must not depend on which other rules have looked at the operation first
+        cands = [d for d in tree.definitions if isinstance(d, A.FragmentDefinitionNode) and any(isinstance(m, A.VariableNode) for m in walk(d))]
+        if not cands:
+            return None, name
+        fr = r.choice(cands)
+        var = r.choice([m.name.value for m in walk(fr) if isinstance(m, A.VariableNode)])
+        tc = A.NamedTypeNode(name=N(r.choice(['Nope', 'Filter', 'Role', 'Unknown', 'Pick'])))
+        nt = A.NamedTypeNode(name=N(r.choice(['Int', 'String', 'Boolean', 'ID', 'Float', 'Filter', 'Role'])))
+        if r.random() < 0.3:
+            nt = A.ListTypeNode(type=nt)
+
+        def fn(n):
+            if isinstance(n, A.FragmentDefinitionNode) and n.name.value == fr.name.value:
+                return _with(n, type_condition=tc)
+            if isinstance(n, A.VariableDefinitionNode) and n.variable.name.value == var and r.random() < 0.8:
+                return _with(n, type=nt, default_value=None)
+            if isinstance(n, A.DocumentNode):
+                defs = sorted(n.definitions, key=lambda d: 0 if isinstance(d, A.FragmentDefinitionNode) else 1)
+                return _with(n, definitions=tuple(defs))
+            return None
+        return rebuild(tree, fn), name
     return None, name
 
 
-MUTATORS = ['rename_field', 'collide_alias', 'drop_alias', 'drop_argument', 'dup_argument', 'unknown_argument', 'swap_value_kind',
+MUTATORS = ['ill_conditioned_fragment_with_variable', 'ill_conditioned_fragment_with_variable', 'rename_field', 'collide_alias', 'drop_alias', 'drop_argument', 'dup_argument', 'unknown_argument', 'swap_value_kind',
             'drop_variable_definition', 'dup_variable_definition', 'change_variable_type', 'change_variable_default',
             'rename_variable_use', 'fragment_cycle', 'change_type_condition', 'unknown_spread', 'add_directive',
             'drop_selection_set', 'add_selection_set', 'reorder_object_fields', 'dup_object_field', 'dup_operation', 'dup_fragment',
